@@ -200,6 +200,13 @@ class ClassC:
         self.invariants.append((expr, label or "inv%d" % len(self.invariants)))
         return self
 
+    def class_attr(self, name, sort):
+        """a class-level attribute (Cls.NAME): one value shared by all instances, never rebound by the code under verification"""
+        if not hasattr(self, "class_attrs"):
+            self.class_attrs = {}
+        self.class_attrs[name] = sort
+        return self
+
     def volatile(self, *fields):
         """fields written by another thread: before every read in code of the monitored class the environment step (interfere) is applied,
         so stale and torn observations are covered (DESIGN §5.2)"""
